@@ -69,6 +69,27 @@ Theorem C06_predicate_eq_step :
 Proof. exact pred_lookup. Qed.
 Print Assumptions C06_predicate_eq_step.
 
+(* A record list that is empty: a predicate step on it is a miss for that list and nothing else (since the
+   "fix:" commit 20793f6; before it the step raised IndexError there, which left an enclosing fan-out loop and
+   lost the selections of the sibling parents: orders/items[k=v]/f with one order's items == []). *)
+Theorem C06_predicate_on_empty_list_is_miss :
+  forall fuel root x re rl dflt toks p c segs y rest k op v,
+  has_path_char x = true -> tokenize x = toks ++ y :: rest ->
+  walks root toks p (Lst c []) segs ->
+  split_name_index y = Ok ([], IdxPred k op v) -> pstr_eqb k s_text = false ->
+  2 * length toks + 1 <= fuel ->
+  dict_get_core fuel root x re rl dflt = Ok (root, if re then LRaise ExIndex else dflt).
+Proof. exact pred_lookup_empty. Qed.
+Print Assumptions C06_predicate_on_empty_list_is_miss.
+
+Theorem C06_predicate_step_on_empty_list :
+  forall rl f root y rest par c fstr k op v,
+  split_name_index y = Ok ([], IdxPred k op v) -> pstr_eqb k s_text = false ->
+  find true rl (S f) root (y :: rest) par (Lst c []) fstr =
+  Ok (root, false, mkF par (Lst c []) None None fstr (Some (y :: rest))).
+Proof. exact find_pred_empty. Qed.
+Print Assumptions C06_predicate_step_on_empty_list.
+
 (* The three operators of the statement, for the step spelling 'P/[k op v]/f': '=' selects the records whose k
    equals v, '!=' those whose k differs (records without k select nothing), '~' those whose k contains v
    (pred_test: lit_eq, its negation, lit_in); same conclusion as above. *)
